@@ -211,12 +211,18 @@ PostViol(e) ==
 RECURSIVE SumPost(_)
 SumPost(S) == IF S = {} THEN 0 ELSE LET x == CHOOSE y \in S : TRUE IN PostViol(x) + SumPost(S \ {x})
 
+OrphViol(e) == Soft("OwnerListed", FALSE, <<e, {t \in SnapTasks : SnapTask(t).owner = e}>>)
+RECURSIVE SumOrph(_)
+SumOrph(S) == IF S = {} THEN 0 ELSE LET x == CHOOSE y \in S : TRUE IN OrphViol(x) + SumOrph(S \ {x})
+
 MonSnapshot ==
   LET quiet == minfl = 0
       lists(t) == {e \in SnapEnvs : t \in SeqSet(SnapEnv(e).tasks)}
       alltasks == UNION {SeqSet(SnapEnv(e).tasks) : e \in SnapEnvs}
   IN
     Soft("OneOwner", \A t \in alltasks : Cardinality(lists(t)) <= 1, {t \in alltasks : Cardinality(lists(t)) > 1})
+  \* at any time: a task is owned only by an environment that is listed
+  + SumOrph({e \in {SnapTask(t).owner : t \in SnapTasks} : e # "" /\ e \notin SnapEnvs})
   + Soft("DetExclusive", \A e1, e2 \in SnapEnvs : e1 # e2 => SeqSet(SnapEnv(e1).dets) \cap SeqSet(SnapEnv(e2).dets) = {},
          {<<e, SnapEnv(e).dets>> : e \in SnapEnvs})
   + (IF quiet
